@@ -269,9 +269,16 @@ impl Backend for SimBackend {
             Some(("write_wouldblock", _)) => {
                 // a blocking socket with a write timeout reports the timeout as WouldBlock;
                 // a non-blocking one reports a momentarily full buffer the same way
-                s.was_full = true;
-                if s.poll.is_none() {
+                // For a polled (non-blocking) stream EAGAIN is followed by a writable edge as soon
+                // as space frees up — here at once, since the buffer was only momentarily full.
+                let polled = s.poll;
+                if polled.is_none() {
                     s.ended_by_fault = true;
+                }
+                if let Some((p, tok, _, w)) = polled {
+                    if w {
+                        Net::push_event(&mut st, p, Ready { token: tok, readable: false, writable: true });
+                    }
                 }
                 return Err(io::Error::new(io::ErrorKind::WouldBlock, "simulated EAGAIN"));
             }
